@@ -315,6 +315,16 @@ def run(F, R, tier):
         R.ob("C09-X", "every declaration of a traced symbol is analysed", not early,
              "a loop over `symbol.decls()` in analyze_module_info can stop early (`%s`): later declarations of a merged symbol (overloads, namespace + function, interface + class) are never traced" % (expr_text(early[0])[:20] if early else ""), where(early[0]) if early else "")
     R.floor("C09-X declaration loops", n_dl, 2)
+    # the same for loops over a module's exports
+    n_el = 0
+    for lp in [n for n in am["_nodes"] if n["k"] == "For"]:
+        if not any(x.get("k") == "MethodCall" and x["name"] == "exports" for x in walk(lp["iter"])):
+            continue
+        n_el += 1
+        early = [x for x in walk(lp["body"]) if x.get("k") in ("Break", "Ret") and not [a for a in k_ancestors(x) if a.get("k") in ("For", "While", "Loop", "Closure") and is_within(a, lp["body"])]]
+        R.ob("C09-X", "every export of a star-traced module is considered", not early,
+             "the loop over a module's exports can stop early (`%s`): exports listed after that point are not traced although `export *` makes them public" % (expr_text(early[0])[:20] if early else ""), where(early[0]) if early else "")
+    R.floor("C09-X export loops", n_el, 1)
 
     # ---------------- C09-R (referrer of a re-queued qualified trace) ----------
     # the Id trace decides from the referrer whether the parent of a member has
